@@ -315,6 +315,9 @@ pub struct ProbeScenario {
     /// pointer, `when_called_unchecked`) | checked_untyped (untyped pointer, `when_called`)
     #[serde(default = "default_entry")]
     pub entry: String,
+    /// gate: the request is made from a destructor while another panic unwinds the thread
+    #[serde(default)]
+    pub in_unwind: bool,
     pub value: bool,
     /// boolregs/conv: arena base and function offset of the synthetic target
     pub arena: u64,
@@ -370,8 +373,9 @@ pub fn generate(profile: &str, seed: u64, index: u64) -> ProbeScenario {
         }
     }
     let entry = ["checked", "unchecked_untyped", "unchecked_typed", "checked_untyped"][((index / 3 / N_SIGS as u64) % 4) as usize];
+    let in_unwind = mode == "gate" && (index / 3 / N_SIGS as u64 / 4) % 2 == 1;
     if mode == "gate" {
-        classes.push(format!("sig{sig}-{value}-{entry}"));
+        classes.push(format!("sig{sig}-{value}-{entry}{}", if in_unwind { "-while-unwinding" } else { "" }));
     }
     let n = 8;
     let mut regs = Vec::new();
@@ -398,6 +402,7 @@ pub fn generate(profile: &str, seed: u64, index: u64) -> ProbeScenario {
         mode: mode.into(),
         sig,
         entry: entry.into(),
+        in_unwind,
         value,
         arena,
         off,
@@ -434,6 +439,16 @@ pub fn execute(sc: &ProbeScenario, sh: &Shared) -> Value {
     sh.note(PH_SETUP, 0, 0, 0);
     match sc.mode.as_str() {
         "gate" => {
+            struct InDrop<F: FnMut()>(Option<F>);
+            impl<F: FnMut()> Drop for InDrop<F> {
+                fn drop(&mut self) {
+                    if let Some(mut f) = self.0.take() {
+                        f()
+                    }
+                }
+            }
+            struct Outer;
+            let mut gate_body = || {
             let (name, is_bool, ptr, addr) = sig_entry(sc.sig);
             let before: Vec<u8> = unsafe { std::slice::from_raw_parts(addr as *const u8, 16).to_vec() };
             let mut inj = InjectorPP::new();
@@ -506,6 +521,20 @@ pub fn execute(sc: &ProbeScenario, sh: &Shared) -> Value {
             let restored: Vec<u8> = unsafe { std::slice::from_raw_parts(addr as *const u8, 16).to_vec() };
             if restored != before {
                 v("not-restored-after-scope-exit", &["C02"], format!("`{name}`: entry bytes differ after drop"));
+            }
+                    };
+            if sc.in_unwind {
+                let r = catch_unwind(AssertUnwindSafe(|| {
+                    let _g = InDrop(Some(&mut gate_body));
+                    std::panic::panic_any(Outer);
+                }));
+                if let Err(p) = r {
+                    if !p.is::<Outer>() {
+                        v("forced-boolean-refusal-wrong-message", &["C10"], format!("a panic escaped the fixture's destructor: {}", panic_msg(&p)));
+                    }
+                }
+            } else {
+                gate_body();
             }
         }
         "boolregs" | "conv" => {
